@@ -258,9 +258,10 @@ func runReplay(job *Job) Result {
 						bad = "signature differs from another message with the same fingerprinted content: " + first
 					}
 				}
-				if r.Layer == "auto" && bad != "" {
-					r.Src = "auto"
-				}
+			}
+			if r.Layer == "auto" && bad != "" {
+				// the expectation comes from the transcription, not from a declarative statement: model/code drift, never a verdict
+				r.Src = "auto"
 			}
 			if bad != "" && r.Src == "decl" {
 				declBad++
